@@ -139,6 +139,10 @@ def targets():
     from . import c07
     for impl, test, adm in itertools.product(("lstsq", "inv"), ("complex", "real", "imaginary"), (False, True)):
         ts.append(c07.target_variant(impl, test, adm, True, True))
+    # shared with C05: "the same points in the opposite order" reach the tests as the same arrays -- the constructor presents every
+    # data set in descending order of frequency, each impedance and mask flag staying with its frequency
+    from . import c05
+    ts += [t for t in c05.targets() if "DataSet.__init__" in t[0] or "get_frequencies/get_impedances" in t[0]]
     return ts
 
 
